@@ -498,6 +498,7 @@ theorem apply_chain {s s' : St} {o : Op} (h : ChainAll s) (e : apply s o = .ok s
   | update m => exact updateState_chain h e
   | fraud au ra hh rev p rw => exact fraud_chain h e
   | obsolete au vs => exact markObsolete_chain h e
+  | punish au a rw => exact punish_chain h (punishProposal_ok e).2
   | begin_ dt => simp only [apply] at e; injection e with e; subst e; exact beginBlock_chain h
   | end_ f => simp only [apply] at e; injection e with e; subst e; exact endBlock_chain h
 
